@@ -52,9 +52,9 @@ CHECKS = {
    note="Trusted: gqlparser validator as the definition of invalid; service request logs.",
    ref="DESIGN.md §6 C10"),
  "C19": dict(engine="enum", cat="exploration",
-   technique="exhaustive enumeration of multipart layouts (operation count x variable-tree shape x file map x contents x owning services) through the real handler, with the multipart requests received by the in-memory services re-parsed and compared",
+   technique="two parts, both exhaustive within bounds: (1) enumeration of multipart layouts (operation count x variable-tree shape x file map x contents x owning services) through the real handler, with the multipart requests received by the in-memory services re-parsed and compared; (2) stateless model checking of the rewritten sources for every layout that puts two file-carrying downstream requests in flight: all operation-grained schedules with <=1 (thorough <=2) preemption, sync.Pool modelled as a LIFO free list, same oracle per execution",
    text="For each of ~550 (quick) layouts: every service sub-request that declares the file variable is multipart and maps the same variable path to the same file name and bytes, sub-requests that do not use the variable carry no file, and data equals the reference (single-operation layouts).",
-   note="Memory-level interference between two services reading one file is a recorded finding, not decided by schedule exploration.",
+   note="Both engines run in one command; the schedule part's evidence is merged into evidence/C19.json under coverage.part_sched. One file variable with two consumers is a recorded finding.",
    ref="DESIGN.md §6 C19"),
  "C03": dict(engine="enum", cat="exploration",
    technique="bounded-exhaustive enumeration of schema sets (base + <=3 atoms from a 43-atom catalogue covering every type-system feature) x every permutation of the service list x both mergers, with the real merger called directly and its result compared fact-by-fact with the union of the inputs",
